@@ -1,0 +1,6 @@
+//go:build !verif
+
+package pppoe
+
+// verifGate is a no-op outside verification builds (see verif_hooks_fsm.go).
+func verifGate(string, any) {}
